@@ -523,7 +523,25 @@ func (ex *Exec) exec(fr *frame, ins ssa.Instruction) {
 		}
 	case *ssa.Go:
 		ex.goStmt(fr, ins)
-	case *ssa.MakeChan, *ssa.Send, *ssa.Select:
+	case *ssa.MakeChan:
+		n := ex.concreteInt(fr.get(ins.Size), types.Typ[types.Int])
+		fr.set(ins, &Chan{cap: n, elem: ins.Type().Underlying().(*types.Chan).Elem()})
+	case *ssa.Send:
+		ch, _ := fr.get(ins.Chan).(*Chan)
+		if ex.par != nil {
+			panic(ex.unsupported("channel send between threads"))
+		}
+		if ch == nil {
+			panic(ex.unsupported("send on nil channel blocks forever"))
+		}
+		if ch.closed {
+			panic(ex.rtPanic("send on closed channel"))
+		}
+		if len(ch.buf) >= ch.cap {
+			panic(ex.unsupported("channel send would block (no other goroutine is modelled)"))
+		}
+		ch.buf = append(ch.buf, fr.get(ins.X))
+	case *ssa.Select:
 		panic(ex.unsupported(fmt.Sprintf("instruction %T", ins)))
 	default:
 		panic(ex.unsupported(fmt.Sprintf("instruction %T", ins)))
@@ -609,7 +627,28 @@ func (ex *Exec) unop(ins *ssa.UnOp, x Value) Value {
 			return ex.ts.BNot(x)
 		}
 	case token.ARROW:
-		panic(ex.unsupported("channel receive"))
+		ch, _ := x.(*Chan)
+		if ex.par != nil {
+			panic(ex.unsupported("channel receive between threads"))
+		}
+		if ch == nil {
+			panic(ex.unsupported("receive from nil channel blocks forever"))
+		}
+		var v Value
+		ok := true
+		switch {
+		case len(ch.buf) > 0:
+			v = ch.buf[0]
+			ch.buf = ch.buf[1:]
+		case ch.closed:
+			v, ok = zero(ch.elem), false
+		default:
+			panic(ex.unsupported("channel receive would block (no other goroutine is modelled)"))
+		}
+		if ins.CommaOk {
+			return Tuple{v, ok}
+		}
+		return v
 	}
 	panic(ex.unsupported(fmt.Sprintf("unop %s on %T", ins.Op, x)))
 }
@@ -1034,6 +1073,11 @@ func (ex *Exec) callBuiltin(b *ssa.Builtin, args []Value, site ssa.Instruction) 
 			return int64(x.n)
 		case Ptr:
 			return int64(len((*x).(Array)))
+		case *Chan:
+			if x == nil {
+				return int64(0)
+			}
+			return int64(len(x.buf))
 		default:
 			return ex.strLenV(x)
 		}
@@ -1043,6 +1087,11 @@ func (ex *Exec) callBuiltin(b *ssa.Builtin, args []Value, site ssa.Instruction) 
 			return int64(cap(x))
 		case Array:
 			return int64(len(x))
+		case *Chan:
+			if x == nil {
+				return int64(0)
+			}
+			return int64(x.cap)
 		}
 	case "min", "max":
 		r := args[0]
@@ -1071,6 +1120,16 @@ func (ex *Exec) callBuiltin(b *ssa.Builtin, args []Value, site ssa.Instruction) 
 	case "delete":
 		ex.mapDelete(args[0].(*Map), args[1])
 		return nil
+	case "close":
+		ch, _ := args[0].(*Chan)
+		if ch == nil {
+			panic(ex.rtPanic("close of nil channel"))
+		}
+		if ch.closed {
+			panic(ex.rtPanic("close of closed channel"))
+		}
+		ch.closed = true
+		return nil
 	case "panic":
 		panic(&goPanic{val: args[0]})
 	case "recover":
@@ -1084,6 +1143,15 @@ func (ex *Exec) callBuiltin(b *ssa.Builtin, args []Value, site ssa.Instruction) 
 		return args[0]
 	case "clear":
 		switch x := args[0].(type) {
+		case Slice:
+			if call, ok := site.(*ssa.Call); ok {
+				et := call.Call.Args[0].Type().Underlying().(*types.Slice).Elem()
+				for i := range x {
+					x[i] = zero(et)
+				}
+			} else {
+				panic(ex.unsupported("clear of a slice outside a plain call"))
+			}
 		case *Map:
 			if x != nil {
 				x.entries = nil
